@@ -413,7 +413,54 @@ def _long_fasta(path, L, width=60, narrow_first=False, void_record=False):
         fh.write(b">tail\nACGTNNACGT\n")
 
 
+def measure_cli(bprime, factor, root):
+    """The whole pretext-to-asm CLI writing FASTA from a FASTA input whose single
+    record is factor*bprime residues long (identity map), with the buffer
+    defaults set to bprime: peak traced memory of the run."""
+    from tola.assembly.scripts import pretext_to_asm
+    from tola.fasta import index as index_mod
+
+    from .. import clirun
+
+    L = bprime * factor
+    d = Path(root) / f"cli{L}"
+    d.mkdir()
+    fa = d / "in.fa"
+    _long_fasta(fa, L)
+    bpt = L / 1000.0
+    (d / "map.agp").write_text(
+        "##agp-version\t2.1\n# DESCRIPTION: Generated by PretextView Version 0.2.5\n"
+        f"# HiC MAP RESOLUTION: {bpt:.6f} bp/texel\n"
+        f"Scaffold_1\t1\t{L}\t1\tW\tchr1\t1\t{L}\t-\tPainted\n"
+        "Scaffold_2\t1\t10\t1\tW\ttail\t1\t10\t+\n"
+    )
+    d1 = index_mod.FastaIndex.__init__.__defaults__
+    d2 = index_mod.index_fasta_file.__defaults__
+    index_mod.FastaIndex.__init__.__defaults__ = (bprime,)
+    index_mod.index_fasta_file.__defaults__ = (bprime,)
+    gc.collect()
+    tracemalloc.start()
+    try:
+        base = tracemalloc.get_traced_memory()[0]
+        tracemalloc.reset_peak()
+        r = clirun.invoke(pretext_to_asm.cli, ["-a", fa, "-p", d / "map.agp", "-o", d / "out.fa", "--no-write-log"])
+        peak = tracemalloc.get_traced_memory()[1] - base
+    finally:
+        tracemalloc.stop()
+        index_mod.FastaIndex.__init__.__defaults__ = d1
+        index_mod.index_fasta_file.__defaults__ = d2
+        clirun.end_of_process()
+    if r.code != 0:
+        raise Bad("differential_exception", "cli_fasta", f"pretext-to-asm failed on the long identity workload: {r.stderr[-400:]}")
+    out = d / "out.1.primary.curated.fa"
+    if not out.exists() or out.stat().st_size < L:
+        raise Bad("differential_stream", "cli_fasta", "pretext-to-asm wrote no complete FASTA for the long identity workload")
+    return peak
+
+
 def measure_long(bprime, factor, what, root):
+    if what == "cli_fasta":
+        return measure_cli(bprime, factor, root)
     """Peak traced memory (bytes above the baseline) of `what` on a sequence /
     fragment / gap of factor*bprime residues with buffer bprime."""
     from tola.assembly.assembly import Assembly
@@ -620,18 +667,24 @@ def large_case(run_seed, tier, which):
         sandbox.remove(root)
 
 
-LONG_WHATS = ["index", "stream_fwd", "stream_rev", "stream_gap", "index_mixed_width", "autoload_warm", "autoload_torn"]
+LONG_WHATS = ["index", "stream_fwd", "stream_rev", "stream_gap", "index_mixed_width", "autoload_warm", "autoload_torn", "cli_fasta"]
 
 
 def long_case(bprime, what, run_seed, tier):
     root = sandbox.make(ID, tier, run_seed, "L")
     try:
+        if what == "cli_fasta":
+            measure_long(bprime, 4, what, root)  # warm-up: lazily imported modules, first-use tables
         small = measure_long(bprime, 40, what, root)
         big = measure_long(bprime, 400, what, root)
     finally:
         sandbox.remove(root)
     abs_bound = 8 * bprime + 2 * 251 + 64 * 1024
     growth_bound = 4 * bprime + 32 * 1024
+    if what == "cli_fasta":
+        # a whole CLI run has a constant footprint of its own (option parsing,
+        # logging, statistics): only growth with the sequence length is judged
+        abs_bound = max(abs_bound, small + growth_bound)
     v = None
     if big > abs_bound or (big - small) > growth_bound:
         v = {
